@@ -154,7 +154,21 @@ def r_stats_and_arms(F, R, cat=None):
             for o in e.argorigins[1]:
                 keys |= base_places(e.ctx, o)
             from_item = all(r == ("arg", 2) or (r[0] == "call") for (c, (r, p)) in keys)
+            if not from_item:
+                # the symbols may come out of a private iterator wrapper built around the item
+                from_item = all(derived_from_item(tree(c, o), b.key) for (c, o) in keys)
             ok_stats = ok_stats and from_item
+        # the item must still hold its symbols when they are counted: `vec.append(&mut item)`
+        # leaves the item empty, a count taken afterwards counts nothing
+        drains = []
+        for (dbi, dt) in b.calls():
+            if callee_tag(dt.get("callee")) in (("Vec", "append"), ("VecDeque", "append")) and len(dt["args"]) == 2 and \
+                    dt["args"][1]["k"] != "const":
+                if any(r == ("arg", 2) for (r, p_) in ctx.org.operand(dt["args"][1])):
+                    drains.append(dbi)
+        for e in entries:
+            if e.ctx is ctx and any(e.top_bb in reach_strict(b, dbi) for dbi in drains):
+                ok_stats = False
         incs = [e for e in effs if e.cls == "assign" and any(f == "stats" for (f, _) in self_field_targets(e, ctx))]
         ok_inc = len(incs) == len(entries) and all(
             is_plus_one(trees(e.ctx, e.value)) for e in incs)
@@ -163,17 +177,17 @@ def r_stats_and_arms(F, R, cat=None):
         for (bi, t_) in b.calls():
             if callee_tag(t_.get("callee")) == ("Huffman", "encode") and len(t_["args"]) >= 3:
                 sym = operand_tree(ctx, t_["args"][2])
-                sinks.append(("encoded", mentions(sym, item), show(sym)[:60]))
+                sinks.append(("encoded", derived_from_item(sym, b.key), show(sym)[:60]))
         for o in ctx.org.local(0):
             t = tree(ctx, o)
             if t[0] == "call" and t[1] == ("fn", "push_symbols"):
                 sym = t[2][3]
-                sinks.append(("encoded", mentions(sym, item), show(sym)[:60]))
+                sinks.append(("encoded", derived_from_item(sym, b.key), show(sym)[:60]))
         raws = [e for e in effs if e.cls == "append" and e.tag[0] in ("Vec", "Extend") and
                 any(f == "inner" and rest[:1] == ("v:Err",) for (f, rest) in self_field_targets(e, ctx))]
         for e in raws:
             a = trees(e.ctx, e.argorigins[1]) if len(e.argorigins) > 1 else ("opaque", "?")
-            sinks.append(("raw", mentions(a, item), show(a)[:60]))
+            sinks.append(("raw", derived_from_item(a, b.key), show(a)[:60]))
         ok_sinks = bool(sinks) and all(s[1] for s in sinks)
         kinds = {s[0] for s in sinks}
         if fwd:
@@ -184,6 +198,11 @@ def r_stats_and_arms(F, R, cat=None):
                 where=b.where(),
                 detail="%d stats entry sites (+1 each: %s); sinks %s" % (len(entries), ok_inc, sinks))
     R.floor("R-HUFF-ARMS", "canonical Huffman push impls", n, 1)
+
+
+def derived_from_item(t, key):
+    """the tree is computed from the pushed item (the whole parameter or its payloads)"""
+    return any(nd[0] == "place" and nd[1] == key and nd[2] == ("arg", 2) for nd in walk(t) if nd)
 
 
 def is_plus_one(t):
@@ -485,3 +504,97 @@ def r_tail(F, R):
                     detail="dominating facts on the bit counter: %s" % (seen or "none") +
                     ("" if ok else "; with no pending bits left this arm panics where the sibling arm returns None"))
         R.floor("R-TAIL", "panic edges in Decoder::next", n, 3)
+
+
+# ---------------------------------------------------------------------------------------------
+# R-CHUNK: the bit cursor never advances past the end of the item
+
+
+def r_chunk(F, R, cat=None):
+    """BitIterator::next hands out the bits of one item chunk by chunk and advances a cursor.
+    Every advance `cursor += n` must stay inside the item: n <= end - cursor, where `end` is the
+    bound the cursor was compared against on entry (`cursor < end`).  Accepted evidence: n is
+    `min(.., end - cursor)`, n equals `end - cursor`, or a dominating comparison implies
+    `end - cursor >= n` (linear arithmetic).  A chunk length that does not mention `end` and has no
+    such bound reads bits of the following item (or padding) as part of this one."""
+    from expr import lin, lin_sub, nobb
+    cat = cat or Catalogue(F)
+    bodies = [b for b in F.bodies.values() if (b.self_adt or "").endswith("BitIterator") and b.name == "next"
+              and b.trait == "Iterator" and not b.in_tests()]
+    R.floor("R-CHUNK", "BitIterator::next", len(bodies), 1)
+    n_sites = 0
+    for b in bodies:
+        R.saw(b)
+        ctx, effs = cat.effects(b)
+        for e in effs:
+            if e.cls != "assign" or e.ctx is not ctx or not e.targets:
+                continue
+            tgts = [(c, o) for (c, o) in e.targets if c is ctx and o[0] == ("arg", 1)]
+            if not tgts:
+                continue
+            cur = ("place", b.key, ("arg", 1), tuple(tgts[0][1][1]))
+            val = nobb(trees(e.ctx, e.value))
+            lv = lin(val)
+            if lv.get(cur) != 1:
+                continue  # not an advance of this place
+            n_sites += 1
+            where = "%s:%s" % (b.file, e.line)
+            # the bound the cursor is compared against
+            ends = []
+            for f in facts_at(ctx, e.bb):
+                f = tuple(nobb(x) if isinstance(x, tuple) else x for x in f)
+                if f[0] == "Lt" and f[1] == cur and f[2][0] == "place":
+                    ends.append(f[2])
+                if f[0] == "Gt" and f[2] == cur and f[1][0] == "place":
+                    ends.append(f[1])
+            if not ends:
+                R.undecided_site("R-CHUNK", b.label(), "no `cursor < end` guard found for the advance at %s" % where)
+                continue
+            end = ends[0]
+            rem = lin_sub(lin(end), lin(cur))
+            nlin_ = lin_sub(lv, lin(cur))  # the amount added
+            # the addend as a tree (for min detection)
+            addend = None
+            if val[0] == "bin" and val[1] == "Add":
+                addend = val[3] if val[2] == cur else (val[2] if val[3] == cur else None)
+            ok = False
+            why = ""
+            if not lin_sub(rem, nlin_):
+                ok, why = True, "advances exactly to the end"
+            if not ok and addend is not None and addend[0] == "call" and addend[1][1] == "min":
+                if any(not lin_sub(lin(a), rem) for a in addend[2]):
+                    ok, why = True, "chunk = min(.., end - cursor)"
+            if not ok:
+                need = lin_sub(rem, nlin_)  # must be >= 0
+                for f in facts_at(ctx, e.bb):
+                    if f[0] not in ("Ge", "Gt", "Le", "Lt") or not fact_holds_(ctx, f, e.bb):
+                        continue
+                    op, x, y = f[0], nobb(f[1]), nobb(f[2])
+                    if op in ("Le", "Lt"):
+                        op = {"Le": "Ge", "Lt": "Gt"}[op]
+                        x, y = y, x
+                    d = lin_sub(lin(x), lin(y))  # d >= 0 (Ge) or d >= 1 (Gt)
+                    extra = lin_sub(need, d)
+                    if set(extra) <= {1}:
+                        c = extra.get(1, 0)
+                        if c >= 0 or (op == "Gt" and c >= -1):
+                            ok, why = True, "dominating comparison %s %s %s bounds the chunk" % (show(x), op, show(y))
+                            break
+            if ok:
+                R.check("R-CHUNK", b.label(), True, construct="cursor advance stays within the item", where=where, detail=why)
+                continue
+            mentions_end = addend is not None and any(nd == end for nd in walk(addend))
+            if mentions_end or addend is None:
+                R.undecided_site("R-CHUNK", b.label(), "advance at %s by %s: bound against the item's end not established" % (
+                    where, show(addend) if addend else show(val)))
+                continue
+            R.check("R-CHUNK", b.label(), False, construct="cursor advance stays within the item", where=where,
+                    detail="the cursor advances by %s, which neither mentions the item's end %s nor is bounded by a "
+                           "dominating comparison against the remaining bits: a short item lying inside one byte is "
+                           "read together with the bits that follow it" % (show(addend), show(end)))
+    R.floor("R-CHUNK", "cursor advances in BitIterator::next", n_sites, 1)
+
+
+def fact_holds_(ctx, f, bb):
+    from expr import fact_still_holds
+    return fact_still_holds(ctx, f, bb)
